@@ -9,7 +9,8 @@
    argv[1] = model | spec; one output line per case:
      C: nine fields "<cmp>:<eq><neq><lt><gt><le><ge>" or "raise"; spec prints the sign demanded by
         the reference order, or "?" where the values are outside the stated sort
-     K: n fields, the index found for each key ("none", "raise") *)
+     K: n fields, the index found for each key ("none", "raise"); for Int and String keys a field "|"
+        and n more fields: the same lookups in a Table *)
 exception Bad of string
 
 let z_of_hex (s : string) : z =
@@ -117,16 +118,21 @@ let () =
         let so = parse_sort so in
         let ins = List.mapi (fun i k -> (k, VInt (z_of_int i))) ks in
         let show = function VInt z -> z_to_dec z | _ -> "?" in
+        let with_table = (match so with Some SInt | Some SStr -> true | _ -> false) in
         if mode = "model" then begin
           match tree_of_sets [] ins with
           | None -> print_endline "BADVALUE"
           | Some t ->
-            print_endline (String.concat " " (List.map (fun k ->
-              match assoc_get t k with None -> "raise" | Some None -> "none" | Some (Some v) -> show v) ks))
+            let tree = List.map (fun k ->
+              match assoc_get t k with None -> "raise" | Some None -> "none" | Some (Some v) -> show v) ks in
+            let table = if not with_table then [] else "|" :: List.map (fun k ->
+              match eq_get ins k with None -> "raise" | Some None -> "none" | Some (Some v) -> show v) ks in
+            print_endline (String.concat " " (tree @ table))
         end else begin
           let indom = match so with None -> false | Some s -> List.for_all (has_sort s) ks in
-          print_endline (String.concat " " (List.map (fun k ->
-            if not indom then "?" else match spec_get ins k with None -> "none" | Some v -> show v) ks))
+          let one = List.map (fun k ->
+            if not indom then "?" else match spec_get ins k with None -> "none" | Some v -> show v) ks in
+          print_endline (String.concat " " (one @ (if with_table then "|" :: one else [])))
         end
       | _ -> print_endline "BADCASE"
     with Bad m -> print_endline "BADVALUE")
